@@ -52,14 +52,28 @@ def c08(c):
     c.finish()
 
 
+RESP_MODEL = ("httpresp", "Extract.v", ["rmodel"], "main.ml")
+
+
+def c09(c):
+    c.coq(["httpresp"], "C09", "HttpRespC")
+    c.trusted += [EXTRACT_TB, "Go map iteration order of http.Header is canonicalised (header lines after Date sorted) before comparing",
+                  "net/http's ReadResponse as the independent client decoder of the oracle",
+                  "Go harness cmd/httpresp (real nbhttp.Response behind a recording net.Conn, driven through the real ServerProcessor)"]
+    c.harness("httpresp", ["-n", n(c, 220, 6000)], overlay=True, model=RESP_MODEL, timeout=3000)
+    c.finish()
+
+
 MODELS = [
+    RESP_MODEL,
     HTTP_MODEL,
     ("mempool", "Extract.v", ["mmodel"], "main.ml"),
 ]
-HARNESSES = [("mempool", False), ("httpparse", True)]
+HARNESSES = [("mempool", False), ("httpparse", True), ("httpresp", True)]
 
 CHECKS = {
     "C06": c06,
     "C08": c08,
+    "C09": c09,
     "C20": c20,
 }
